@@ -119,8 +119,21 @@ def _leaf_values(spec):
     raise ValueError(spec)
 
 
+def _plain_nonempty(v):
+    if v is None or isinstance(v, (str, bytes)) or not hasattr(v, '__len__') or len(v) == 0:
+        return False
+    items = list(v.values()) if hasattr(v, 'values') and hasattr(v, 'keys') else list(v)
+    return all(x is not None for x in items)
+
+
 def _cut(vals, size):
-    return vals if size == 'full' else vals[:5] if size == 'mid' else vals[:3]
+    """Shortened domains keep: missing, a non-empty value without missing parts (if any), then the original order."""
+    if size == 'full':
+        return vals
+    k = next((i for i, v in enumerate(vals) if _plain_nonempty(v)), None)
+    if k is not None and k > 1:
+        vals = [vals[0], vals[k]] + vals[1:k] + vals[k + 1:]
+    return vals[:5] if size == 'mid' else vals[:3]
 
 
 def _mk_list(xs, frozen):
@@ -494,6 +507,52 @@ def enumerate_types(tier):
             for b in d2s:
                 add(('dict', a, b))
                 add(('struct', (('a', a), ('b', b))))
+    for s in hashable_context_types(tier):
+        add(s)
+    return out
+
+
+def _wrappers(c, full):
+    """Every constructor with `c` as a child (the other child, if any, a plain leaf)."""
+    i32, st = ('int32',), ('str',)
+    yield ('tuple', (c,))
+    yield ('struct', (('s', c),))
+    yield ('array', c)
+    yield ('set', c)
+    if full:
+        yield ('tuple', (i32, c))
+        yield ('tuple', (c, st))
+        yield ('struct', (('s', st), ('t', c)))
+        yield ('interval', c)
+        yield ('dict', c, i32)
+        yield ('dict', st, c)
+
+
+def hashable_context_types(tier):
+    """set<X> and dict<X, int32> (plus the same one level further down) where X nests every constructor 1-2 levels
+    deep over container-typed (and plain) leaves: hail must hand back hashable (frozen) values at every level below a
+    set element / dict key position."""
+    i32, st = ('int32',), ('str',)
+    if tier == 'quick':
+        base = [('array', st), ('set', i32), ('dict', st, i32), i32]
+    else:
+        base = [('array', st), ('set', i32), ('dict', st, i32), ('array', ('float64',)), ('set', ('call',)), ('dict', i32, st),
+                ('tuple', (i32, st)), ('struct', (('a', i32),)), ('interval', i32), i32, st, ('locus', 'GRCh37')]
+    x1 = []
+    for c in base:
+        x1.extend(_wrappers(c, True))
+    x2 = []
+    for x in x1:
+        x2.extend(_wrappers(x, tier != 'quick'))
+    out = []
+    for x in base + x1 + x2:
+        out.append(('set', x))
+        out.append(('dict', x, i32))
+    if tier != 'quick':
+        for x in x1:
+            out.append(('array', ('set', x)))
+            out.append(('struct', (('k', ('dict', x, st)),)))
+            out.append(('dict', st, ('set', x)))
     return out
 
 
@@ -610,7 +669,8 @@ def check(tier, seed, procs):
         'exhaustive': True,
         'bounds': {
             'types': ('all types of depth <= 2 over {int32,int64,float32,float64,str,bool,call,locus<GRCh37>,locus<`a b`>} with array/set/interval/'
-                      'dict/tuple(1,2)/struct(1,2) + ndarray<numeric,1..3>; '
+                      'dict/tuple(1,2)/struct(1,2) + ndarray<numeric,1..3>; hashable-context layer: set<X>, dict<X,int32> (thorough also array<set<X>>, '
+                      'struct{k: dict<X,str>}, dict<str,set<X>>) with X = every constructor nested 1-2 levels over container-typed and plain leaves; '
                       + ('depth 3: every constructor over a depth-2 type of {int32,float64,str} with the other child a leaf of the same set'
                          if tier == 'quick' else
                          'depth 3: every constructor over any depth-2 type with the other child any leaf; plus dict/struct of two depth-2 types over {float64,str,call}')),
